@@ -1,6 +1,7 @@
 package main
 
 import (
+	"os"
 	"go/constant"
 	"go/token"
 	"go/types"
@@ -193,7 +194,7 @@ func expandFacts(fs []Fact) []Fact {
 var nilErrDepth int
 
 func impliedByNilError(f Fact) []Fact {
-	if nilErrDepth > 1 {
+	if nilErrDepth > 1 || os.Getenv("RV_NONILERR") != "" {
 		return nil // the helper's own returns are examined with local facts only
 	}
 	nilErrDepth++
